@@ -259,7 +259,7 @@ class SimSocket:
         return data
 
     # writing ------------------------------------------------------------------
-    def sendall(self, data):
+    def sendall(self, data, _retry=False):
         if self.closed:
             raise self._ebadf()
         if self.kind != "conn":
@@ -267,7 +267,7 @@ class SimSocket:
         data = bytes(data)
         net = self.net
         peer = self.peer
-        if self.side == "mgr":
+        if self.side == "mgr" and not _retry:
             # shadow parser over every attempted write (successful or not): which frame is this?
             if self.sh_need <= 0 and len(data) == net.hs:
                 self.sh_hdr = unpack_hdr(net.timecode, data)
@@ -289,7 +289,7 @@ class SimSocket:
                 # RST in flight: scheduler decides whether it has arrived by now
                 if net.choices.flag("net.rst_arrived", 1, 2):
                     self.arrive_rst_now()
-                    return self.sendall(data)
+                    return self.sendall(data, _retry=True)
                 net.on_write_void(self, len(data))
                 return None
             # orderly FIN from the peer: the first write goes into the void and provokes an RST
